@@ -92,6 +92,14 @@ CLAIMED = {
             'by reading every modelled value back at the end.',
             'Trusted: the reference store and error-cause model; harness-side canonicalisation with the library encoder; computed and uninitialised properties are not value-modelled.',
             'DESIGN.md section 3 (C15)'),
+    'C17': ('exploration',
+            'deterministic simulation: seeded and enumerated command sequences against all 20 commandable classes, direct and over the wire, 16-slot reference model with slot-6 timer model under the virtual clock',
+            'Every command sequence of bounded length over 4 priorities x 3 values x {write, relinquish} for each of the 20 *CmdObject classes (direct access), plus seeded sequences of up to 100 '
+            'commands over all 16 priorities with invalid priorities, optional relinquish default / initial value, binary classes with minimum on/off times and virtual time advanced across '
+            'the hold expiries, half through direct access and half through WriteProperty / ReadProperty of a real client stack over a LAN with drop/dup/delay plans (model applied at each '
+            'server-side indication). After each command the present value and the whole priority array are read and compared with the reference model.',
+            'Trusted: the reference model; priority 6 not commanded on binary objects with minimum times; DateTime objects always get a relinquish default; runs are cut at an exact tie between an operation and a hold expiry.',
+            'DESIGN.md section 3 (C17)'),
     'C14': ('exploration',
             'deterministic simulation of the real scheduler under both real loop drivers (run_once stepped; run() with shimmed asyncore and in-memory trigger), reference-scheduler monitor',
             'Every history (enumerated short op sequences over 2-3 tasks with colliding times, every subset of raising members in deferred batches and same-instant '
